@@ -7,6 +7,7 @@ import OxiaVerif.Model.Wal
 import OxiaVerif.Model.Codec
 import OxiaVerif.Driver.DbProto
 import OxiaVerif.Model.Shard
+import OxiaVerif.Model.Select
 
 /-! Line-protocol dispatch: one operation line in, one output line out. -/
 namespace Oxia.Driver
@@ -363,6 +364,63 @@ def stepShard (st : State) (toks : List String) : State × String :=
     | none => (st, "bad-op")
   | _ => (st, "bad-op")
 
+/-- `labels=<server>.<label>.<value>,...` -/
+def parseLabels (t : String) : List (Nat × Nat × Nat) :=
+  if t == "_" then [] else
+  (t.splitOn ",").filterMap fun x =>
+    match x.splitOn "." with
+    | [s, l, v] => match s.toNat?, l.toNat?, v.toNat? with
+      | some s, some l, some v => some (s, l, v)
+      | _, _, _ => none
+    | _ => none
+
+/-- `rules=<l1>+<l2>:S;<l3>:R` -/
+def parseRules (t : String) : List Select.Rule :=
+  if t == "_" then [] else
+  (t.splitOn ";").filterMap fun x =>
+    match x.splitOn ":" with
+    | [ls, m] => some { labels := (ls.splitOn "+").filterMap (·.toNat?), strict := m == "S" }
+    | _ => none
+
+def parseNatList (t : String) : List Nat := if t == "_" then [] else (t.splitOn ",").filterMap (·.toNat?)
+
+def showNatList (l : List Nat) : String := String.intercalate "," (l.map toString)
+
+def selErr : Select.Err → String
+  | .unsatisfiedAntiAffinity => "err:unsatisfied-anti-affinity"
+  | .unsupportedMode => "err:unsupported-mode"
+  | .unsatisfiedReplicas => "err:unsatisfied-replicas"
+
+def stepSelect (st : State) (toks : List String) : State × String :=
+  let get (k : String) : String := (DbProto.kvOf toks k).getD "_"
+  let servers := parseNatList (get "servers")
+  let labels := parseLabels (get "labels")
+  let ctx : Select.Ctx := {
+    servers := servers,
+    labelsOf := fun s => (labels.filter (·.1 = s)).map (fun x => (x.2.1, x.2.2)),
+    rules := parseRules (get "rules"),
+    replicas := (get "rf").toNat?.getD 0 }
+  let prio := parseNatList (get "prio")
+  -- lowest-load selector: the first node of the load-ratio order that is a candidate
+  let pick : List Nat → Nat := fun cs => ((prio.find? (cs.contains ·)).getD (cs.headD 0))
+  match toks with
+  | "sel.ens" :: _ =>
+    (st, match Select.selectEnsemble Facts.antiAffinityFirstRuleUnion Facts.selectorRefusesWhenNoCandidate ctx pick with
+      | .ok e => "ok " ++ showNatList e
+      | .error e => selErr e
+      | .panic => "panic")
+  | "sel.swap" :: _ =>
+    let ens := parseNatList (get "ens")
+    let from_ := (get "from").toNat?.getD 0
+    (st, match Select.swapTarget Facts.antiAffinityFirstRuleUnion Facts.selectorRefusesWhenNoCandidate ctx pick ens from_ with
+      | .ok s _ => "ok " ++ toString s
+      | .error e => selErr e
+      | .panic => "panic")
+  | "sel.replace" :: _ =>
+    let l := parseNatList (get "list")
+    (st, showNatList (Select.replaceInList l ((get "old").toNat?.getD 0) ((get "new").toNat?.getD 0)))
+  | _ => (st, "bad-op")
+
 def step (st : State) (line : String) : State × String :=
   let toks := (line.splitOn " ").filter (· ≠ "")
   match toks with
@@ -375,6 +433,7 @@ def step (st : State) (line : String) : State × String :=
     else if t.startsWith "cx." || t.startsWith "cw." then stepCodec st toks
     else if t.startsWith "db." || t.startsWith "idx." then stepDb st toks
     else if t.startsWith "sh." || t.startsWith "cs." || t.startsWith "cl." then stepShard st toks
+    else if t.startsWith "sel." then stepSelect st toks
     else (st, "bad-op")
 
 end Oxia.Driver
